@@ -196,6 +196,10 @@ def finish(prop, tier, seed, tasks, results, wall, known, extra=None):
                        "obligation_instances": len(r["obligations"]), "covers": len(r["covers"])} for r in results],
             "functions_under_contract": {k: funcs[k] for k in sorted(funcs)},
             "declared_functions": sorted({f for r in results for f in r.get("declared_functions", [])}),
+            "contracts_used_at_call_sites": {
+                k: ("body proved in this run" if any(k in r.get("declared_functions", []) and k not in r.get("contracts_applied", []) for r in results)
+                    else "assumed here (proved by another property's check or trusted - see trusted_base)")
+                for k in sorted({c for r in results for c in r.get("contracts_applied", [])})},
             "trusted_base": sorted(f"{k}: {v}" for k, v in trusted.items()) + ["engine /verif/pyvc (see assumptions)"],
             "vacuity": {"guard_failures": guard_msgs,
                         "covers_reached": sum(len(r["covers"]) for r in results)},
